@@ -116,12 +116,12 @@ def _setup_cluster_df(
     high_loss_prob,
     assign_loss_prob,
 ):
-    cluster_df = pd.read_csv(cluster_file, sep="\t")
+    cluster_df = pd.read_csv(cluster_file, sep="\t", converters={"mutation_id": str})
     if "outlier_prob" not in cluster_df.columns:
         if assign_loss_prob:
             column_checks = True
             if "chrom" not in cluster_df.columns:
-                data_df = pd.read_table(data_file)
+                data_df = _create_raw_data_df(data_file)
                 if "chrom" in data_df.columns:
                     data_df = data_df[["mutation_id", "chrom"]]
                     cluster_df = pd.merge(cluster_df, data_df, how="inner", on=["mutation_id"])
@@ -228,10 +228,14 @@ def _process_required_cols_on_df(df, samples):
         df.loc[:, "tumour_content"] = 1.0
 
 
+# Identifiers are names, not numbers: read them verbatim ("01" is not "1", "NA" is a valid id)
+_ID_CONVERTERS = {"mutation_id": str, "sample_id": str}
+
+
 def _create_raw_data_df(file_name):
-    df = pd.read_table(file_name)
+    df = pd.read_table(file_name, converters=_ID_CONVERTERS)
     if len(df.columns) == 1:
-        df = pd.read_csv(file_name)
+        df = pd.read_csv(file_name, converters=_ID_CONVERTERS)
     df["sample_id"] = df["sample_id"].astype(str)
     return df
 
